@@ -203,16 +203,17 @@ def soughtOf (ok : Bool) (rest : List (Sample V)) (maxt : Int) : List (Int × V)
     | _ => []
   else []
 
-/-- a window read off the iterator's position after `Seek(maxt)` -/
+/-- a window read off the iterator's position after `Seek(maxt)`: nothing of the window lies before
+the ring -/
 theorem window_of_position (S old ring rest : List (Sample V)) (hs : SortedT S) (ok : Bool)
-    (lo maxt : Int) (hlo : lo ≤ maxt) (hold : ∀ s ∈ old, s.t < lo)
+    (lo maxt : Int) (hlo : lo ≤ maxt) (hold : ∀ s ∈ old, inWin lo maxt s = none)
     (hring : ∀ s ∈ ring, s.t < maxt)
     (hpos : match rest with | x :: _ => x.t ≥ maxt ∧ ok = true | [] => ok = false)
     (hS : S = old ++ (ring ++ rest)) :
     windowPoints lo maxt S = ring.filterMap (ptOf lo) ++ soughtOf ok rest maxt := by
   subst hS
   rw [windowPoints_eq, List.filterMap_append, List.filterMap_append]
-  rw [fm_nil (f := inWin lo maxt) (l := old) (fun s hs' => inWin_lt (hold s hs')), List.nil_append]
+  rw [fm_nil (f := inWin lo maxt) (l := old) hold, List.nil_append]
   have hr : ring.filterMap (inWin lo maxt) = ring.filterMap (ptOf lo) := by
     apply fm_congr
     intro s hs'
@@ -243,45 +244,91 @@ theorem window_of_position (S old ring rest : List (Sample V)) (hs : SortedT S) 
       · have : ¬ xt ≤ maxt := by omega
         simp [inWin, this, he]
 
-/-- **C03, operational half: `selectPoints` over the buffered iterator is the reference window** -
-whatever was retained in `out` from an earlier window that started no later and ended earlier. -/
-theorem selectPointsB_spec (S : List (Sample V)) (hs : SortedT S) (delta : Int) (hd : 0 ≤ delta) (b : Buf V)
+theorem inWin_mono_lo {lo lo' hi : Int} {s : Sample V} (h : lo ≤ lo') (hn : inWin lo hi s = none) :
+    inWin lo' hi s = none := by
+  unfold inWin at hn ⊢
+  split
+  · rename_i v hv
+    rw [hv] at hn
+    simp only at hn
+    by_cases hc : (lo' ≤ s.t ∧ s.t ≤ hi)
+    · have : (lo ≤ s.t ∧ s.t ≤ hi) := ⟨by omega, hc.2⟩
+      simp [this] at hn
+    · simp only [Bool.and_eq_true, decide_eq_true_eq]
+      rw [if_neg hc]
+  · rfl
+
+theorem mem_window_of {lo hi : Int} {S : List (Sample V)} {s : Sample V} (hs : s ∈ S) {p : Int × V}
+    (h : inWin lo hi s = some p) : p ∈ windowPoints lo hi S := by
+  rw [windowPoints_eq]
+  exact List.mem_filterMap.mpr ⟨s, hs, h⟩
+
+/-- **C03, operational half: `selectPoints` over the buffered iterator is the reference window**.
+`delta` is the ring's current delta, `R ≥ delta` the window length, `out` what was retained from an
+earlier window that started no later and ended earlier. Where the ring no longer reaches back to
+the window's start (`delta < R` after `ReduceDelta`), the non-stale samples of that gap must be in
+`out`. -/
+theorem selectPointsB_spec (S : List (Sample V)) (hs : SortedT S) (delta R : Int) (hd : 0 ≤ delta)
+    (hdR : delta ≤ R) (b : Buf V)
     (bound maxt : Int) (hb : bound ≤ maxt) (hinv : BInv S delta b bound)
     (out : List (Int × V)) (lo' hi' : Int) (hout : out = windowPoints lo' hi' S)
-    (hlo : lo' ≤ maxt - delta) (hhi : hi' < maxt) :
-    (selectPointsB delta b (maxt - delta) maxt out).2 = windowPoints (maxt - delta) maxt S ∧
-      BInv S delta (selectPointsB delta b (maxt - delta) maxt out).1 maxt := by
+    (hlo : lo' ≤ maxt - R) (hhi : hi' < maxt)
+    (hgap : ∀ s ∈ S, maxt - R ≤ s.t → s.t < maxt - delta → ∀ p, inWin (maxt - R) maxt s = some p → p ∈ out) :
+    (selectPointsB delta b (maxt - R) maxt out).2 = windowPoints (maxt - R) maxt S ∧
+      BInv S delta (selectPointsB delta b (maxt - R) maxt out).1 maxt := by
   obtain ⟨hinv', hpos⟩ := seekB_spec S hs delta hd b bound maxt hb hinv
   refine ⟨?_, hinv'⟩
   obtain ⟨old, hS, hold, hring, _⟩ := hinv'
-  have pos : ∀ lo, lo ≤ maxt → (∀ s ∈ old, s.t < lo) →
+  have holdS : ∀ s ∈ old, s ∈ S := fun s h => by rw [hS]; exact List.mem_append_left _ h
+  -- every point of `out` is at most its last point
+  have hmax : ∀ l, out.getLast? = some l → ∀ p ∈ out, p.1 ≤ l.1 := by
+    intro l hl p hp
+    obtain ⟨_, _, _, h4⟩ := window_after_last S hs lo' hi' l (by rw [← hout]; exact hl)
+    rw [hout, h4] at hp
+    exact (mem_window hp).2
+  have pos : ∀ lo, maxt - R ≤ lo → lo ≤ maxt → (∀ p ∈ out, p.1 < lo) →
       windowPoints lo maxt S = (b.seek delta maxt).1.ring.filterMap (ptOf lo) ++
-        soughtOf (b.seek delta maxt).2 (b.seek delta maxt).1.rest maxt :=
-    fun lo h1 h2 => window_of_position S old _ _ hs _ lo maxt h1 h2 hring hpos hS
-  have fresh : ([] : List (Int × V)) ++ (b.seek delta maxt).1.ring.filterMap (ptOf (maxt - delta)) ++
-        soughtOf (b.seek delta maxt).2 (b.seek delta maxt).1.rest maxt = windowPoints (maxt - delta) maxt S := by
-    rw [List.nil_append]
-    exact (pos (maxt - delta) (by omega) hold).symm
+        soughtOf (b.seek delta maxt).2 (b.seek delta maxt).1.rest maxt := by
+    intro lo h0 h1 h2
+    refine window_of_position S old _ _ hs _ lo maxt h1 ?_ hring hpos hS
+    intro s hs'
+    have hst := hold s hs'
+    by_cases hlt : s.t < lo
+    · exact inWin_lt hlt
+    · cases hw : inWin lo maxt s with
+      | none => rfl
+      | some p =>
+        exfalso
+        obtain ⟨hp1, hp2, hp3, hp4⟩ := inWin_some hw
+        have hw' : inWin (maxt - R) maxt s = some p := by
+          rw [← hw]; exact inWin_lo (by omega) (by omega)
+        have hin := hgap s (holdS s hs') (by omega) hst p hw'
+        have := h2 p hin
+        omega
   unfold selectPointsB
   simp only
   cases hl : out.getLast? with
-  | none => exact fresh
+  | none =>
+    have hemp : out = [] := List.getLast?_eq_none_iff.mp hl
+    simp only [List.nil_append]
+    exact (pos (maxt - R) (by omega) (by omega) (by rw [hemp]; intro p hp; cases hp)).symm
   | some l =>
     simp only
-    by_cases hge : l.1 ≥ maxt - delta
+    by_cases hge : l.1 ≥ maxt - R
     · simp only [hge, if_true]
       obtain ⟨h1, h2, _, h4⟩ := window_after_last S hs lo' hi' l (by rw [← hout]; exact hl)
-      rw [window_split S hs (maxt - delta) l.1 maxt (by omega) (by omega)]
-      rw [pos (l.1 + 1) (by omega) (fun s hs' => by have := hold s hs'; omega)]
-      rw [hout, h4, window_dropWhile S hs lo' (maxt - delta) l.1 hlo]
+      rw [window_split S hs (maxt - R) l.1 maxt (by omega) (by omega)]
+      rw [pos (l.1 + 1) (by omega) (by omega) (fun p hp => by have := hmax l hl p hp; omega)]
+      rw [hout, h4, window_dropWhile S hs lo' (maxt - R) l.1 hlo]
       simp only [soughtOf, List.append_assoc]
       rfl
-    · simp only [hge, if_false]
-      exact fresh
+    · simp only [hge, if_false, List.nil_append]
+      exact (pos (maxt - R) (by omega) (by omega) (fun p hp => by have := hmax l hl p hp; omega)).symm
 
 /-- **along any strictly increasing sequence of window ends** (the steps of a range query; any step
 width relative to the range), the engine's `selectPoints` driven over one buffered iterator and one
-reused output slice yields at every step exactly the non-stale samples of the window. -/
+reused output slice - without `ReduceDelta` - yields at every step exactly the non-stale samples of
+the window. -/
 theorem selectRanges_along_steps (S : List (Sample V)) (hs : SortedT S) (range : Int) (hd : 0 ≤ range)
     (refs : List Int) (hmono : refs.Pairwise (· < ·)) :
     selectRangesB range (Buf.new S) [] refs = refs.map fun r => windowPoints (r - range) r S := by
@@ -295,7 +342,8 @@ theorem selectRanges_along_steps (S : List (Sample V)) (hs : SortedT S) (range :
     | cons r rs ih =>
       intro b out bound lo' hi' hinv hout hall hmono
       obtain ⟨hb, hlo, hhi⟩ := hall r (List.mem_cons_self ..)
-      obtain ⟨h1, h2⟩ := selectPointsB_spec S hs range hd b bound r hb hinv out lo' hi' hout hlo hhi
+      obtain ⟨h1, h2⟩ := selectPointsB_spec S hs range range hd (Int.le_refl _) b bound r hb hinv out lo' hi'
+        hout hlo hhi (fun s _ h3 h4 => by omega)
       simp only [selectRangesB, List.map_cons]
       rw [h1]
       congr 1
@@ -313,5 +361,135 @@ theorem selectRanges_along_steps (S : List (Sample V)) (hs : SortedT S) (range :
     · omega
     · have := (List.pairwise_cons.mp hmono).1 r' h
       omega
+
+/-! ### with `ReduceDelta`, as `matrixSelector.Next` drives it -/
+
+theorem reduce_inv (S : List (Sample V)) (delta d : Int) (b : Buf V) (bound : Int) (hd : d ≤ delta)
+    (h : BInv S delta b bound) : BInv S d { b with ring := reduceRing d b.ring } bound := by
+  obtain ⟨old, hS, hold, hring, hlast⟩ := h
+  unfold reduceRing
+  cases hl : b.ring.getLast? with
+  | none =>
+    have he : b.ring = [] := List.getLast?_eq_none_iff.mp hl
+    refine ⟨old, by simpa using hS, fun s hs' => by have := hold s hs'; omega, by simpa using hring, ?_⟩
+    simp only
+    split
+    · rename_i x r hx
+      rw [hx] at hlast
+      rcases hlast with h1 | ⟨h1, h2, h3⟩
+      · exact Or.inl h1
+      · exact Or.inr ⟨h1, h2, he⟩
+    · trivial
+  | some l =>
+    simp only
+    obtain ⟨dd, h1, h2, _⟩ := dropWhile_split (fun x : Sample V => decide (x.t < l.t - d)) b.ring
+    have hlt : l.t < bound := hring l (List.mem_of_getLast? hl)
+    refine ⟨old ++ dd, ?_, ?_, ?_, ?_⟩
+    · rw [hS]
+      conv => lhs; rw [h1]
+      simp [List.append_assoc]
+    · intro s hs'
+      rcases List.mem_append.mp hs' with h | h
+      · have := hold s h; omega
+      · have := h2 s h
+        simp only [decide_eq_true_eq] at this
+        omega
+    · intro s hs'
+      exact hring s (by rw [h1]; exact List.mem_append_right _ hs')
+    · simp only
+      split
+      · rename_i x r hx
+        rw [hx] at hlast
+        rcases hlast with h3 | ⟨_, _, h5⟩
+        · exact Or.inl h3
+        · rw [h5] at hl; cases hl
+      · trivial
+
+/-- **the matrix selector's scan of one series, as written**: per step `selectPoints` into the reused
+`previousPoints`, then `ReduceDelta(min(range, step))`. For every sorted sample list, every range
+`≥ 0`, every step `> 0` and step count: each step's points are exactly the non-stale samples of
+its window. The older part of a window comes from `previousPoints` and the ring only holds the
+last `step` milliseconds; the two fit together because a non-stale sample of the overlap is the
+last retained point or older. -/
+theorem matrix_scan_along_steps (S : List (Sample V)) (hs : SortedT S) (range step : Int) (hr : 0 ≤ range)
+    (hst : 0 < step) (r0 : Int) (n : Nat) :
+    selectRangesM range step range (Buf.new S) [] ((List.range n).map fun (k : Nat) => r0 + (k : Int) * step) =
+      (List.range n).map fun (k : Nat) => windowPoints (r0 + (k : Int) * step - range) (r0 + (k : Int) * step) S := by
+  have key : ∀ (n : Nat) (r : Int) (delta : Int) (b : Buf V) (out : List (Int × V)) (bound lo' hi' : Int),
+      0 ≤ delta → delta ≤ range → BInv S delta b bound → out = windowPoints lo' hi' S →
+      bound ≤ r → lo' ≤ r - range → hi' < r →
+      -- the part of the first window the ring does not cover is covered by `out`
+      (∀ s ∈ S, r - range ≤ s.t → s.t < r - delta → ∀ p, inWin (r - range) r s = some p → p ∈ out) →
+      -- from the second step on the ring holds `min(range, step)` milliseconds
+      (delta = range ∨ delta = stepRange range step) →
+      selectRangesM range step delta b out ((List.range n).map fun (k : Nat) => r + (k : Int) * step) =
+        (List.range n).map fun (k : Nat) => windowPoints (r + (k : Int) * step - range) (r + (k : Int) * step) S := by
+    intro n
+    induction n with
+    | zero => intro _ _ _ _ _ _ _ _ _ _ _ _ _ _ _ _; rfl
+    | succ n ih =>
+      intro r delta b out bound lo' hi' hd0 hdR hinv hout hb hlo hhi hgap hdelta
+      have hsplit : (List.range (n + 1)).map (fun (k : Nat) => r + (k : Int) * step) =
+          r :: (List.range n).map (fun (k : Nat) => (r + step) + (k : Int) * step) := by
+        rw [List.range_succ_eq_map]
+        simp only [List.map_cons, List.map_map, Function.comp_def]
+        congr 1
+        · simp
+        · apply List.map_congr_left
+          intro k _
+          simp only [Nat.succ_eq_add_one]
+          push_cast
+          rw [Int.add_mul]
+          omega
+      have hsplit2 : (List.range (n + 1)).map (fun (k : Nat) => windowPoints (r + (k : Int) * step - range) (r + (k : Int) * step) S) =
+          windowPoints (r - range) r S ::
+            (List.range n).map (fun (k : Nat) => windowPoints ((r + step) + (k : Int) * step - range) ((r + step) + (k : Int) * step) S) := by
+        rw [List.range_succ_eq_map]
+        simp only [List.map_cons, List.map_map, Function.comp_def]
+        congr 1
+        · simp
+        · apply List.map_congr_left
+          intro k _
+          simp only [Nat.succ_eq_add_one]
+          push_cast
+          rw [Int.add_mul]
+          congr 1 <;> omega
+      rw [hsplit, hsplit2]
+      obtain ⟨h1, h2⟩ := selectPointsB_spec S hs delta range hd0 hdR b bound r hb hinv out lo' hi' hout hlo hhi hgap
+      simp only [selectRangesM]
+      have hsr0 : 0 ≤ stepRange range step := by unfold stepRange; split <;> omega
+      have hsrR : stepRange range step ≤ range := by unfold stepRange; split <;> omega
+      -- the next step's gap condition, for the ring of `sr` milliseconds
+      have gap' : ∀ s ∈ S, r + step - range ≤ s.t → s.t < r + step - stepRange range step →
+          ∀ p, inWin (r + step - range) (r + step) s = some p → p ∈ windowPoints (r - range) r S := by
+        intro s hsS hlo1 hhi1 p hp
+        obtain ⟨_, _, _, hp4⟩ := inWin_some hp
+        unfold stepRange at hhi1
+        split at hhi1
+        · -- range > step: the gap lies inside the previous window
+          have : inWin (r - range) r s = some p := by
+            rw [← hp]
+            unfold inWin
+            rw [hp4]
+            have a1 : r - range ≤ s.t := by omega
+            have a2 : s.t ≤ r := by omega
+            have a3 : r + step - range ≤ s.t := hlo1
+            have a4 : s.t ≤ r + step := by omega
+            simp [a1, a2, a3, a4]
+          exact mem_window_of hsS this
+        · omega
+      split
+      · -- `sr > delta`: impossible from the second step on, and at the first step `delta = range`
+        rename_i hgt
+        exfalso
+        rcases hdelta with h | h <;> omega
+      · rw [h1]
+        congr 1
+        refine ih (r + step) _ _ _ r (r - range) r hsr0 hsrR (reduce_inv S delta _ _ r (by omega) h2) rfl
+          (by omega) (by omega) (by omega) gap' (Or.inr rfl)
+  have := key n r0 range (Buf.new S) [] r0 (r0 - range) (r0 - range - 1) hr (Int.le_refl _) (binv_new S range r0)
+    (window_empty S _ _ (by omega)).symm (Int.le_refl _) (Int.le_refl _) (by omega)
+    (fun s _ h3 h4 => by omega) (Or.inl rfl)
+  exact this
 
 end PromqlVerif
